@@ -1,0 +1,72 @@
+//! Verification hooks (only compiled with the `verif-hooks` cargo feature).
+//!
+//! A thread-local event log of everything the random number machinery does, and a
+//! thread-local seed override, so that an external harness can observe each draw
+//! without changing what is drawn.
+use std::cell::{Cell, RefCell};
+
+use crate::eval_context::EvalContext;
+
+/// One observable event of the random number machinery
+#[derive(Debug, Clone, PartialEq, Eq)]
+pub enum Event {
+    /// A new evaluation context was created with this seed
+    NewRun {
+        /// seed in use
+        seed: u64,
+    },
+    /// One value was drawn from the run's generator
+    GenDraw,
+    /// `random(bound)` evaluated to `value`
+    Draw {
+        /// evaluated argument of `random`
+        bound: i64,
+        /// value returned
+        value: i64,
+    },
+    /// `resetRandom;` was executed
+    Reset,
+}
+
+thread_local! {
+    static LOG: RefCell<Vec<Event>> = const { RefCell::new(Vec::new()) };
+    static SEED: Cell<Option<u64>> = const { Cell::new(None) };
+}
+
+/// Force the seed of every evaluation context created on this thread from now on
+pub fn set_seed_override(seed: Option<u64>) {
+    SEED.with(|s| s.set(seed));
+}
+
+/// Take (and clear) the event log of this thread
+pub fn take_log() -> Vec<Event> {
+    LOG.with(|l| std::mem::take(&mut *l.borrow_mut()))
+}
+
+pub(crate) fn seed_override() -> Option<u64> {
+    SEED.with(|s| s.get())
+}
+
+pub(crate) fn log(event: Event) {
+    LOG.with(|l| l.borrow_mut().push(event));
+}
+
+/// Wrapper which forwards `random` to the real context and records the outcome
+pub(crate) struct DrawRecorder<'a> {
+    pub(crate) ctx: &'a EvalContext,
+    pub(crate) bound: i64,
+}
+
+impl DrawRecorder<'_> {
+    pub(crate) fn random<R: rand::distributions::uniform::SampleRange<i64>>(
+        &self,
+        range: R,
+    ) -> i64 {
+        let value = self.ctx.random(range);
+        log(Event::Draw {
+            bound: self.bound,
+            value,
+        });
+        value
+    }
+}
